@@ -32,6 +32,7 @@ def run(db, rep, feat, tier):
     r5(db, rep)
     r6(db, rep)
     r7(db, rep)
+    r8(db, rep)
     r1(db, rep, r3ok)
 
 
@@ -312,6 +313,48 @@ def r7(db, rep):
     bad = [f for f in reach if f in (M + "::get32",)]
     r.decide(not bad, "get|bytewise", db.where(db.mir[M + "::get"]),
              "get() reaches get32, which only reads inside one section: a read across adjacent sections is lost")
+
+
+def r8(db, rep):
+    r = rep.rule("R8", "K4", "set_memory: an older section that starts before the new region is truncated when it ends "
+                 "at or before the new region's end (a + l <= address + len) and split only when it ends strictly "
+                 "after it, so no empty tail section is created (an empty section would replace its neighbour)")
+    body = db.mir[M + "::set_memory"]
+    tm = Terms(body, db)
+    cfg = Cfg(body)
+    found = None
+    for i, b in enumerate(body["blocks"]):
+        t = b["t"]
+        if t["k"] != "SwitchInt":
+            continue
+        c = tm.operand(t["discr"])
+        if c[0] == "bin" and c[1] in ("Le", "Lt", "Ge", "Gt"):
+            a_, b_ = strip_overflow(c[2]), strip_overflow(c[3])
+            def is_end_old(x):
+                return x[0] == "bin" and x[1] == "Add" and 2 not in params_of(x) and 3 not in params_of(x)
+            def is_end_new(x):
+                return x[0] == "bin" and x[1] == "Add" and ("param", 2) in (strip_overflow(x[2]), strip_overflow(x[3])) and any(
+                    last_seg(cc[1]) == "len" and 3 in params_of(cc) for cc in calls_in(x))
+            # which side is followed by truncate / split_off
+            tg = dict((v, bb) for v, bb in t["targets"])
+            true_side, false_side = t["otherwise"], tg.get(0)
+            def side_calls(s, other):
+                mine, theirs = cfg.reachable(s), cfg.reachable(other) if other is not None else set()
+                return {last_seg(mir_callee(ct) or "") for j, ct in mir_calls(body) if j in mine}
+            if is_end_old(a_) and is_end_new(b_) or is_end_new(a_) and is_end_old(b_):
+                op = c[1]
+                if is_end_new(a_):
+                    op = {"Le": "Ge", "Ge": "Le", "Lt": "Gt", "Gt": "Lt"}[op]
+                # only the decision whose true side truncates and whose false side splits
+                first_true = [last_seg(mir_callee(body["blocks"][j]["t"]) or "") for j in sorted(cfg.reachable(true_side))
+                              if body["blocks"][j]["t"]["k"] == "Call"]
+                if "truncate" in first_true[:12] and found is None and op in ("Le", "Lt"):
+                    found = (op, t["l"])
+    if found is None:
+        r.open("set_memory|truncate_vs_split", db.where(body), "decision not recognised")
+    else:
+        r.decide(found[0] == "Le", "set_memory|truncate_vs_split", db.where(body, found[1]),
+                 "an older section ending exactly at the new region's end is split (creating an empty tail) instead of truncated")
 
 
 # ------------------------------------------------------------------------------------------------ R1
